@@ -18,7 +18,7 @@ type decCase struct {
 	Kind    string          `json:"kind"`
 	Bytes   []int           `json:"bytes"`
 	Prev    []int           `json:"prev"`
-	Hist    [][]int         `json:"hist"` // inputs decoded into the used receivers before prev (any outcome)
+	Hist    [][]int         `json:"hist"`    // inputs decoded into the used receivers before prev (any outcome)
 	Prefill bool            `json:"prefill"` // the used receivers start as values the application filled in itself (every field set)
 	Class   string          `json:"class"`
 	Want    json.RawMessage `json:"p"`
